@@ -23,6 +23,7 @@ SPEC = {
         "harness printer of schedules / traces as Coq terms; publisher chain built by the real publisher visor (CreateBlockFromTxns + signature)",
     ],
     "assumptions": ["a block is the publisher's block k iff its header hash and body hash equal those of the publisher's block k (SHA-256 collision freedom)",
+                    "what a node accepts from a message does not depend on its own request count / response cap (followers run with 20/20 and with 2-3/4-5; single messages up to 23 blocks with known blocks in front)",
                     "GiveBlocks messages are processed one at a time (the daemon processes message events on one goroutine)"],
 }
 
